@@ -1,3 +1,104 @@
-From Thunder Require Import Lib.Json GqlTyping.Types GqlTyping.Parse GqlTyping.Check15.
-Theorem placeholder : True. Proof. exact I. Qed.
-Print Assumptions placeholder.
+(** C15 – untrusted input never crashes the server; polynomial cost; resolver panics contained;
+    cancelled one-shot requests return.  Statements only; proofs are in GqlTyping/Proofs*.v. *)
+From Coq Require Import List ZArith String Bool Arith.
+From Thunder Require Import Lib.Json GqlTyping.Types GqlTyping.Parse GqlTyping.ProofsParse GqlTyping.ProofsCost
+     GqlTyping.Conn GqlTyping.ProofsConn GqlTyping.OneShot GqlTyping.ProofsOneShot.
+Import ListNotations.
+Open Scope string_scope.
+Open Scope list_scope.
+
+(** 1. No crash in graphql.Parse: for every AST graphql-go's parser can produce (the mirror type has an
+    option exactly where that parser leaves nil) and every variable map, every outcome the repaired
+    conversion can have – whatever order Go ranges over the fragment map – is a query or a
+    ClientError.  This covers parseSelectionSet, the cycle check (recursion bounded by the number of
+    fragments: the fragments on the stack are pairwise distinct), and detectConflicts (which recurses
+    through spreads without a stack check: safe because a successful cycle check leaves a
+    topological order). *)
+Theorem convert_never_crashes :
+  forall (doc : gdoc) (vars : jargs) (o : res (query * nat)),
+    In o (convert_all repaired doc vars) -> is_crash o = false.
+Proof. exact (fun doc vars => convert_all_nocrash repaired doc vars eq_refl). Qed.
+Print Assumptions convert_never_crashes.
+
+(** F22: false of the code before the repair – `{ ... { a } }`. *)
+Theorem convert_orig_refuted :
+  exists (doc : gdoc) (vars : jargs), convert orig doc vars = RCrash CrNilTypeCondition.
+Proof. exact (ex_intro _ f22_doc (ex_intro _ [] convert_orig_crashes)). Qed.
+Print Assumptions convert_orig_refuted.
+
+(** 2. Cost.  F21: on the unrepaired code "visits <= p(size)" fails for every polynomial p: the bomb
+    family has 3n+3 nodes and needs at least 2^n visits of detectConflicts.visitSibling … *)
+Theorem detect_conflicts_cost_orig_refuted :
+  forall (nm : nat -> string), (forall i j, nm i = nm j -> i = j) ->
+  forall n, query_size (bquery nm n) = 3 * n + 3 /\
+            exists c, detect_conflicts orig (btbl nm n) (broot nm) = ROk c /\ c >= 2 ^ n.
+Proof. exact (fun nm inj n => conj (query_size_bomb nm inj n) (conflicts_bomb_exponential nm inj n)). Qed.
+Print Assumptions detect_conflicts_cost_orig_refuted.
+
+(** … and at least 2^n calls of PrepareQuery, on any schema whose root object has a scalar field a. *)
+Theorem prepare_cost_orig_refuted :
+  forall (nm : nat -> string), (forall i j, nm i = nm j -> i = j) ->
+  forall (sch : schema) fs key ft,
+    lookup "Query" sch = Some (DObject fs key) -> lookup "a" fs = Some ft -> lookup (named_of ft) sch = Some DScalar ->
+  forall n, exists c, prepare orig sch "Query" (bquery nm n) = ROk c /\ c >= 2 ^ n.
+Proof. exact prepare_bomb_exponential. Qed.
+Print Assumptions prepare_cost_orig_refuted.
+
+(** 3. A resolver that panics fails only its own request: the connection stays alive, every other
+    subscription is untouched, everything written carries the failing request's id … *)
+Theorem resolver_panic_contained :
+  forall (c : conn) (id : string) (o : outcome),
+    let c' := run_request true c id o in
+    alive c' = alive c /\
+    (forall id', id' <> id -> lookup id' (subs c') = lookup id' (subs c)) /\
+    exists written, outbox c' = outbox c ++ written /\ Forall (fun e => e_id e = id) written.
+Proof. exact contained. Qed.
+Print Assumptions resolver_panic_contained.
+
+(** … namely one error envelope with the sanitised text, and the request is closed. *)
+Theorem resolver_panic_fails_its_request :
+  forall (c : conn) (id : string) (s : sub),
+    alive c = true -> lookup id (subs c) = Some s -> s_initial s = true ->
+    let c' := run_request true c id OPanic in
+    outbox c' = outbox c ++ [{| e_id := id; e_type := EError; e_msg := JStr "Internal server error" |}] /\
+    lookup id (subs c') = None /\ alive c' = true.
+Proof. exact panic_fails_only_its_request. Qed.
+Print Assumptions resolver_panic_fails_its_request.
+
+(** 4. Cancellation of a one-shot request (ServeHTTP, federation ExecuteRequest).  F23: with handlers
+    that wait for the computation's signal only, "cancelled before the first run, handler waiting" is
+    reachable and no label is enabled in it. *)
+Theorem oneshot_cancel_orig_refuted :
+  exists tr s, run false init tr = Some s /\ hd s = HWaiting /\ req_cancelled s = true /\
+               forall l, step false s l = None.
+Proof. exact orig_deadlock. Qed.
+Print Assumptions oneshot_cancel_orig_refuted.
+
+(** Repaired (also select on ctx.Done()): under every schedule and every moment of cancellation, as
+    long as the handler has not returned a step of the system is enabled; every such step lowers a
+    measure that starts at 4; and when nothing can move the handler has returned and the rerunner
+    goroutine has ended (no goroutine left). *)
+Theorem oneshot_cancel_repaired_returns :
+  forall tr s, run true init tr = Some s ->
+    (hd s <> HReturned -> exists l, In l system_labels /\ enabled true s l = true) /\
+    (forall l s', In l system_labels -> step true s l = Some s' -> measure s' < measure s) /\
+    (quiescent true s = true -> hd s = HReturned /\ (rn s = RSkipped \/ rn s = RFinished)).
+Proof.
+  exact (fun tr s H => conj (repaired_progress s (reachable_inv true tr s H))
+                            (conj (fun l s' => measure_decreases true s l s')
+                                  (repaired_quiescent s (reachable_inv true tr s H)))).
+Qed.
+Print Assumptions oneshot_cancel_repaired_returns.
+
+(** Non-vacuity. *)
+Example bomb_4_costs : detect_conflicts orig (btbl unary 4) (broot unary) = ROk 32
+                       /\ detect_conflicts repaired (btbl unary 4) (broot unary) = ROk 6.
+Proof. split; reflexivity. Qed.
+Example a_query_converts :
+  exists q c, convert repaired
+    [GOperation "query" (Some "Q") [] [] [GSpread "F" []; GField (Some "k") "obj" [] [] (Some [GField None "x" [] [] None])];
+     GFragmentDef "F" "Query" [] [GField None "a" [("x", GVInt 3)] [] None]] [] = ROk (q, c).
+Proof. eexists; eexists; reflexivity. Qed.
+Example cancelled_before_first_run_returns_when_repaired :
+  exists s, run true init [Cancel; RunnerSelect; HandlerWake; HandlerStop] = Some s /\ hd s = HReturned.
+Proof. eexists; split; reflexivity. Qed.
